@@ -44,6 +44,7 @@ type Sim struct {
 	overrun  bool
 	yieldOn  map[string]bool
 	yieldAll bool
+	yieldP   float64
 	chNames  map[[32]byte]string
 	prNames  map[[32]byte]string
 }
@@ -202,7 +203,14 @@ func (s *Sim) Count(k string, n int64) {
 // parked goroutines. Only sites enabled in this run's buggify mask park.
 func (s *Sim) Yield(site string) {
 	if !s.yieldAll && !s.yieldOn[site] {
-		return
+		// sites inserted automatically into a scratch copy (cmd/yieldinject) are
+		// not known in advance: their mask bit is derived on first use
+		if !strings.HasPrefix(site, "auto:") || s.yieldP <= 0 {
+			return
+		}
+		if float64(kernel.Derive(s.Sc.Seed, "buggify", site)>>11)/(1<<53) >= s.yieldP {
+			return
+		}
 	}
 	s.Count("probe.yield."+site, 1)
 	s.Sleep("yield:"+site, 0, 40*time.Microsecond)
@@ -211,6 +219,7 @@ func (s *Sim) Yield(site string) {
 // EnableYields sets the buggify mask: each listed site is enabled with
 // probability p (keyed on the site name).
 func (s *Sim) EnableYields(sites []string, p float64) {
+	s.yieldP = p
 	s.yieldOn = map[string]bool{}
 	for _, site := range sites {
 		if float64(kernel.Derive(s.Sc.Seed, "buggify", site)>>11)/(1<<53) < p {
